@@ -21,6 +21,9 @@ pub struct LimitsCfg {
     /// None: created with new_with_height(n). Some((n0, t0)): created with n0, reconfigured to n
     /// before action t0
     pub reconfigure: Option<(usize, usize)>,
+    /// a second reconfiguration, to `n2` before action `t2` (legal or not, whatever the history makes it)
+    #[serde(default)]
+    pub reconfigure2: Option<(usize, usize)>,
     /// 0 = limit scenario, 1 = cycle through one bind, 2 = cycle through two binds,
     /// 3 = cross-state node, 4 = nested stabilise in node function, 5 = nested stabilise in handler
     pub misuse: u8,
@@ -64,8 +67,12 @@ pub fn gen_plan(seed: u64) -> Plan {
         None
     };
     let misuse_at = r.below(acts.len());
+    let reconfigure2 = match reconfigure {
+        Some((_, t0)) if t0 + 1 < acts.len() && r.chance(1, 2) => Some(((n as i64 + r.range(-4, 2)).max(1) as usize, t0 + 1 + r.below(acts.len() - t0 - 1))),
+        _ => None,
+    };
     let knobs = Knobs { hash_seed: r.next(), tie_break: None, max_height: None, crash_at: None, dense_reads: true, audit: true, stop_on: String::new() };
-    Plan { engine: "limits".into(), actions: acts.into_iter().map(Action::X).collect(), knobs, extra: serde_json::to_value(LimitsCfg { n, reconfigure, misuse, misuse_at }).unwrap() }
+    Plan { engine: "limits".into(), actions: acts.into_iter().map(Action::X).collect(), knobs, extra: serde_json::to_value(LimitsCfg { n, reconfigure, reconfigure2, misuse, misuse_at }).unwrap() }
 }
 
 #[derive(Clone, Debug, PartialEq)]
@@ -221,17 +228,25 @@ pub fn run_on_this_thread(plan: &Plan, keep_trace: bool) -> RunOutput {
         let mut seen_so_far = 0i32;
         let mut over = false;
         for (t, a) in acts.iter().enumerate() {
-            if t0 == Some(t) {
+            let target = if t0 == Some(t) {
+                Some(cfg.n)
+            } else {
+                match cfg.reconfigure2 {
+                    Some((n2, t2)) if t2 == t && t0.map_or(false, |t0| t0 < t) => Some(n2),
+                    _ => None,
+                }
+            };
+            if let Some(target) = target {
                 // legal whenever n is at least the greatest height already in use
-                if cfg.n as i32 >= seen_so_far {
+                if target as i32 >= seen_so_far {
                     let st = sim.state.clone();
-                    let r = catch_unwind(AssertUnwindSafe(|| st.set_max_height_allowed(cfg.n)));
-                    log.push(format!("set_max_height_allowed({}) with max height seen {} -> {}", cfg.n, seen_so_far, if r.is_ok() { "ok" } else { "panic" }));
+                    let r = catch_unwind(AssertUnwindSafe(|| st.set_max_height_allowed(target)));
+                    log.push(format!("set_max_height_allowed({}) with max height seen {} -> {}", target, seen_so_far, if r.is_ok() { "ok" } else { "panic" }));
                     match r {
-                        Ok(()) => limit = cfg.n as i32,
+                        Ok(()) => limit = target as i32,
                         Err(p) => {
                             let (msg, _) = panic_message(&p);
-                            bad!("legal-reconfigure-panicked", "set_max_height_allowed({}) panicked although the greatest height in use is {}: {}", cfg.n, seen_so_far, msg);
+                            bad!("legal-reconfigure-panicked", "set_max_height_allowed({}) panicked although the greatest height in use is {}: {}", target, seen_so_far, msg);
                             break;
                         }
                     }
@@ -241,12 +256,16 @@ pub fn run_on_this_thread(plan: &Plan, keep_trace: bool) -> RunOutput {
                     // panic is not judged; once refused it must have changed nothing, so the
                     // history continues under the old limit
                     let st = sim.state.clone();
-                    let r = catch_unwind(AssertUnwindSafe(|| st.set_max_height_allowed(cfg.n)));
-                    log.push(format!("set_max_height_allowed({}) with max height seen {} -> {}", cfg.n, seen_so_far, if r.is_ok() { "ok" } else { "refused" }));
+                    let r = catch_unwind(AssertUnwindSafe(|| st.set_max_height_allowed(target)));
+                    log.push(format!("set_max_height_allowed({}) with max height seen {} -> {}", target, seen_so_far, if r.is_ok() { "ok" } else { "refused" }));
                     if r.is_ok() {
-                        break;
+                        // accepted although something taller is in use: from now on that is the
+                        // limit the engine has promised to enforce
+                        limit = target as i32;
+                        *out.faults.entry("reconfigure_below_use_accepted".into()).or_insert(0) += 1;
+                    } else {
+                        *out.faults.entry("reconfigure_refused".into()).or_insert(0) += 1;
                     }
-                    *out.faults.entry("reconfigure_refused".into()).or_insert(0) += 1;
                 }
             }
             let step = sim.apply(a);
